@@ -7,7 +7,7 @@ use crate::diagnostic::{Diagnostic, Emitter, RootEmitter};
 use crate::ident::Ident;
 use crate::error::{GatherErrorIteratorExt, ErrorReported, ErrorFlag};
 use crate::game::{Game, LanguageKey};
-use crate::llir::{self, ReadInstr, RawInstr, RawScript, LanguageHooks, InstrFormat, DecompileOptions};
+use crate::llir::{self, ReadInstr, RawInstr, RawScript, LanguageHooks, InstrFormat, DecompileOptions, fit_instr_field};
 use crate::pos::Sp;
 use crate::context::CompilerContext;
 use crate::value::ScalarValue;
@@ -660,10 +660,10 @@ impl InstrFormat for MsgHooks {
         }
     }
 
-    fn write_instr(&self, f: &mut BinWriter, _: &dyn Emitter, instr: &RawInstr) -> WriteResult {
-        f.write_i16(instr.time as _)?;
-        f.write_u8(instr.opcode as _)?;
-        f.write_u8(instr.args_blob.len() as _)?;  // this version writes argsize rather than instr size
+    fn write_instr(&self, f: &mut BinWriter, emitter: &dyn Emitter, instr: &RawInstr) -> WriteResult {
+        f.write_i16(fit_instr_field(emitter, "time", instr.time)?)?;
+        f.write_u8(fit_instr_field(emitter, "opcode", instr.opcode)?)?;
+        f.write_u8(fit_instr_field(emitter, "argument size", instr.args_blob.len() as i64)?)?;  // this version writes argsize rather than instr size
         f.write_all(&instr.args_blob)?;
         Ok(())
     }
